@@ -131,3 +131,8 @@ def run(eng, tier):
         'not_decided': ['that the invariants capture every reachable state is the paper induction of DESIGN §5 (step obligations under C01/C08/C09/C11)'],
         'assumptions': [],
     }
+
+import probes as _pb
+PROBES = [
+    _pb.drop_write('execute', 'CancelBid', 'bid'),
+]
